@@ -300,6 +300,10 @@ def check_table_owned(ctx, rep, RULE):
         raise AnalysisError("the setter does not rebind the table (anchor lost)")
     g = ctx.api("get_semantic_constraints")
     check_fresh_return(ctx, eff, rep, g, RULE, "get_semantic_constraints")
+    # ... and a refused table never becomes the table in force: in the setter no raise point is reachable after a write
+    # to module state (otherwise the rejected table stays installed behind the uncleared memos)   (C12/G3, shared)
+    from rules.C12 import AtomicFlow
+    AtomicFlow(ctx, eff, setter, rep, rule=RULE).run(frozenset())
 
 
 def fragment_printer(ctx):
